@@ -1223,3 +1223,104 @@ func ruleOMDisjoint(c *Ctx, r *Report) {
 		r.Und("ygot.orderedMapKeysMergeable:accept", c.Pos(f.Decl.Pos()), "no guarded success return found")
 	}
 }
+
+// ---- R-REGEXP-ESCAPE-STATE (C06) ---------------------------------------------------------------
+
+// ruleRegexpEscapeState: fixYangRegexp walks the pattern rune by rune with an "inside an escape"
+// state. Two of its decisions are about what a rune *means* and therefore depend on that state:
+// a final '$' is the anchor only if it is not escaped; a '^' after '[' negates a set only if the
+// '[' is not escaped. Each condition that takes one of these decisions must read the escape state
+// (or a variable derived from it).
+func ruleRegexpEscapeState(c *Ctx, r *Report) {
+	r.Rule("R-REGEXP-ESCAPE-STATE", "in util.fixYangRegexp every condition that treats a final '$' as the pattern's anchor, or a '^' following '[' as a set negation, also reads the escape state: an escaped '$' or '[' is a literal, and treating it otherwise yields an expression that does not compile or can match nothing", 2)
+	f := c.MustFunc(r, "util", "fixYangRegexp")
+	if f == nil {
+		return
+	}
+	info := f.Info()
+	// the escape-state variable: assigned from an expression comparing the rune with '\\'.
+	derived := map[types.Object]bool{}
+	ast.Inspect(f.Decl.Body, func(x ast.Node) bool {
+		as, ok := x.(*ast.AssignStmt)
+		if !ok || len(as.Lhs) != 1 || len(as.Rhs) != 1 {
+			return true
+		}
+		if strings.Contains(types.ExprString(as.Rhs[0]), `'\\'`) {
+			if o := ObjOf(info, as.Lhs[0]); o != nil {
+				derived[o] = true
+			}
+		}
+		return true
+	})
+	if len(derived) == 0 {
+		r.Und("util.fixYangRegexp:escape-state", c.Pos(f.Decl.Pos()), "escape-state variable not found")
+		return
+	}
+	for changed := true; changed; {
+		changed = false
+		ast.Inspect(f.Decl.Body, func(x ast.Node) bool {
+			as, ok := x.(*ast.AssignStmt)
+			if !ok || len(as.Lhs) != 1 || len(as.Rhs) != 1 {
+				return true
+			}
+			o := ObjOf(info, as.Lhs[0])
+			if o == nil || derived[o] {
+				return true
+			}
+			for d := range derived {
+				if mentionsObj(info, as.Rhs[0], d) {
+					derived[o] = true
+					changed = true
+				}
+			}
+			return true
+		})
+	}
+	readsState := func(e ast.Expr) bool {
+		for d := range derived {
+			if mentionsObj(info, e, d) {
+				return true
+			}
+		}
+		return false
+	}
+	// decision expressions: boolean expressions (if conditions, definitions of boolean locals).
+	var exprs []ast.Expr
+	ast.Inspect(f.Decl.Body, func(x ast.Node) bool {
+		switch s := x.(type) {
+		case *ast.IfStmt:
+			exprs = append(exprs, s.Cond)
+		case *ast.AssignStmt:
+			if len(s.Rhs) == 1 {
+				if tv, ok := info.Types[s.Rhs[0]]; ok && tv.Type != nil && tv.Type.String() == "bool" {
+					exprs = append(exprs, s.Rhs[0])
+				}
+			}
+		}
+		return true
+	})
+	nd, nc := 0, 0
+	for _, e := range exprs {
+		txt := types.ExprString(e)
+		if strings.Contains(txt, "== '$'") && strings.Contains(txt, "last") && !strings.Contains(txt, "!= last") {
+			nd++
+			ok := readsState(e)
+			if !ok {
+				// a condition made only of booleans that were themselves checked.
+				if id, isID := ast.Unparen(e).(*ast.Ident); isID && derived[info.ObjectOf(id)] {
+					ok = true
+				}
+			}
+			r.Check(ok, fmt.Sprintf("util.fixYangRegexp:final-dollar#%d", nd), c.Pos(e.Pos()), "the anchor decision reads the escape state",
+				"fixYangRegexp treats a final '$' as the anchor of the pattern under "+txt+" without reading the escape state: for '[0-9]+\\$' it emits '^([0-9]+\\)$', which does not compile, so every value fails the pattern")
+		}
+		if strings.Contains(txt, "'['") {
+			nc++
+			r.Check(readsState(e), fmt.Sprintf("util.fixYangRegexp:caret-after-bracket#%d", nc), c.Pos(e.Pos()), "the set-negation decision reads the escape state of the bracket",
+				"fixYangRegexp leaves a '^' that follows '[' unescaped under "+txt+" whether or not the '[' itself is escaped: for 'a\\[^b' the caret becomes a mid-pattern anchor and no string matches")
+		}
+	}
+	if nd == 0 {
+		r.Und("util.fixYangRegexp:final-dollar", c.Pos(f.Decl.Pos()), "no decision about the final '$' found")
+	}
+}
